@@ -230,6 +230,10 @@ func (f *Polynomial) SetZero() {
 func (f *Polynomial) Pow(n uint) *Polynomial {
 	const op = "Computing polynomial power"
 
+	if tmp := hasErr(op, f); tmp != nil {
+		return tmp
+	}
+
 	out := f.baseRing.Polynomial([]ff.Element{
 		f.BaseField().One(),
 	})
@@ -238,9 +242,9 @@ func (f *Polynomial) Pow(n uint) *Polynomial {
 	for n > 0 {
 		if n%2 == 1 {
 			out = out.Mult(g)
-			if out.Err() != nil {
+			if err := out.Err(); err != nil {
 				out = f.baseRing.Zero()
-				out.err = errors.Wrap(op, errors.Inherit, out.Err())
+				out.err = errors.Wrap(op, errors.Inherit, err)
 				return out
 			}
 		}
